@@ -42,7 +42,10 @@ def parse_vcf(path, samples):
             if gt is None or gt[0] is None:
                 continue
             ps = c.get("PS")
-            out[(s, r["chrom"], r["pos"])] = (bool(gt[1]), tuple(gt[0]), ps if isinstance(ps, int) else None)
+            key = (s, r["chrom"], r["pos"])
+            if key in out:
+                key = key + ("dup",)      # second record at the same position (what is left of a split multi-allelic site)
+            out[key] = (bool(gt[1]), tuple(gt[0]), ps if isinstance(ps, int) else None)
     return out
 
 
@@ -191,6 +194,29 @@ def run_case(ctx, case, d):
                         n_new += 1; n_sets.add((s, c, o[2]))
                 else:
                     ctx.observe("variant unphased in V gets phased from the tagged reads (outside the statement)")
+
+            # ---- second records at an already used position: whatshap reads only the first record of a position, so a
+            # second one is never phased from votes; whatever it carries must be what it carried before
+            for i in case.get("dups", {}).get(c, []):
+                v = vs[i]
+                key = (s, c, v["pos"], "dup")
+                u, o, vv = U.get(key), O.get(key), V.get(key)
+                ctx.dist("dup_records", 1)
+                if o is None or u is None:
+                    ctx.fail(f"second record at {c}:{v['pos'] + 1} missing from the haplotagphase output", case, key="record-lost"); continue
+                if u[0]:
+                    if o != u:
+                        ctx.fail(f"{c}:{v['pos'] + 1} (second record) {s}: already phased in the input of haplotagphase as {fmt(u)}, "
+                                 f"written as {fmt(o)}", case, key="already-phased-altered-dup")
+                elif o[0]:
+                    if vv is not None and vv[0] and (o[1] != vv[1] or o[2] != vv[2]):
+                        ctx.fail(f"{c}:{v['pos'] + 1} (second record at this position) {s}: phased as {fmt(o)}, the VCF that tagged "
+                                 f"the reads says {fmt(vv)}", case, key="order-dup")
+                    elif vv is None or not vv[0]:
+                        ctx.fail(f"{c}:{v['pos'] + 1} (second record at this position) {s}: phased as {fmt(o)} although no read was "
+                                 f"ever typed for this record (only the first record of a position is read)", case, key="dup-phased")
+                elif o[1] != u[1]:
+                    ctx.fail(f"{c}:{v['pos'] + 1} (second record) {s}: unphased genotype changed {fmt(u)} -> {fmt(o)}", case, key="genotype-changed")
 
             # ---- correspondence with the Lean model
             vars_req = []
